@@ -146,6 +146,13 @@ class _P:
                 j += 1
             v = int(s[self.i:j])
             self.i = j
+            if s.startswith("..", j):          # TLC prints a set of consecutive integers as an interval a..b
+                k = j + 2
+                while k < self.n and (s[k].isdigit() or (k == j + 2 and s[k] == "-")):
+                    k += 1
+                hi = int(s[j + 2:k])
+                self.i = k
+                return TlaSet(range(v, hi + 1))
             return v
         if c in _IDCH:
             j = self.i
